@@ -10,6 +10,7 @@ constructs: programs assembled from templates for the user errors named in the s
             non-callable heads, ...)
 fuzz      : the C17 token-level fuzzer (mutated corpus statements, generated programs, token soup) pushed through
             parsing, grounding, compilation and evaluation."""
+import gc
 import itertools
 import os
 import tempfile
@@ -170,7 +171,7 @@ GOALS = [_A("true"), _A("fail"), _A("c"), _A("undefined_zz"), ["cmp", "f", [_V("
 ATOMIC = [_V("X"), _V("Y"), _V("_"), _V("X"), _A("a"), _A("b"), _A("f"), _A("g"), _A("[]"), _A("foo"), _A("'A b'"),
           _A("c"), _A("lists"), _A("'<'"), _A("'='"), _A("none"), _A("'1'"), _A("'3.5'"), _A("''"),
           _I(0), _I(1), _I(2), _I(3), _I(-1), _I(7), _I(1000), ["float", 0.5], ["float", -2.5], ["float", 1e+20],
-          ["float", 2.0], ["str", "abc"], ["str", ""], ["str", "12"], ["str", "a b"], _I(10 ** 15)]
+          ["float", 2.0], ["str", "abc"], ["str", ""], ["str", "12"], ["str", "a b"], _I(100000)]
 
 STRUCT = [_lst([_I(1), _I(2), _I(3)]), _lst([_A("a"), _A("b")]), _lst([_V("X"), _V("Y")]), _lst([_lst([_I(1)]), _lst([_I(2)])]),
           _lst([_A("a")], _V("T")), _lst([_A("a"), _A("b")], _V("T")), _lst([_A("a")], _A("b")), _lst([_I(1), _A("a"), ["str", "s"]]),
@@ -338,6 +339,19 @@ def _prepare_tmp():
             pass
 
 
+def _run(src, eng):
+    """run_problog; after a watchdog timeout or memory exhaustion the (cyclic) engine garbage of the interrupted run
+    is collected at once, otherwise later allocations of the shard can fail with MemoryError (harness error)."""
+    try:
+        res = plrun.run_problog(src, engine=eng)
+    except BaseException:
+        gc.collect()
+        raise
+    if res[0] == "resource":
+        gc.collect()
+    return res
+
+
 def _judge(res, nontrivial, feats, sample, what):
     if res[0] == "resource":
         return Outcome(inconclusive=res[1], features=feats)
@@ -352,7 +366,7 @@ def check_builtin(case):
     _prepare_tmp()
     src = render_builtin_program(case)
     eng = harness_engine()
-    res = plrun.run_problog(src, engine=eng)
+    res = _run(src, eng)
     sig = "%s/%s" % (case["name"], len(case["args"]))
     reached = sig in eng.seen_calls or (case["wrap"] in ("query", "evidence") and "<builtin>" in eng.seen_calls)
     feats = ["wrap:" + case["wrap"], "arity-delta:%d" % (len(case["args"]) - case["arity"])]
@@ -472,7 +486,7 @@ def _parses(src):
 def check_construct(case):
     src = case["src"]
     eng = harness_engine()
-    res = plrun.run_problog(src, engine=eng)
+    res = _run(src, eng)
     parsed = res[0] == "ok" or (res[0] == "error" and res[1] not in ("ParseError", "UnexpectedCharacter",
                                                                      "UnmatchedCharacter")) or res[0] == "crash"
     feats = []
@@ -516,7 +530,7 @@ def _fuzz_strategy():
 def check_fuzz(case):
     src = case["src"]
     eng = harness_engine()
-    res = plrun.run_problog(src, engine=eng)
+    res = _run(src, eng)
     parsed = res[0] in ("ok", "crash") or (res[0] == "error" and res[1] not in (
         "ParseError", "UnexpectedCharacter", "UnmatchedCharacter"))
     feats = ["builtin-evaluated"] if "<builtin>" in eng.seen_calls else []
